@@ -695,6 +695,36 @@ def build(tier, rng):
                 if getattr(s.h, "default_ident", None) and not s.wrapper:
                     g.check(p.ident == s.h.default_ident, f"global-format:{s.name}", "pristine hasher no longer uses its default identifier", {"hasher": s.name, "hash": hs})
     groups.append(g)
+
+    # =============================================================================================
+    g = G("configured-format-version", "bcrypt_sha256.using(version=...)", "bcrypt_sha256 / django-free wrappers configured with version 1 and 2 (and hashers derived from those): fresh hashes carry the configured wrapper version, are not flagged by the hasher's own update check, hashes of the OTHER version are flagged exactly when older; lmhash.using(truncate_error=True) with a per-call encoding counts the bytes of THAT encoding")
+    try:
+        import passlib.hash as PH
+        for ver in (1, 2):
+            for derive in (False, True):
+                h = PH.bcrypt_sha256.using(version=ver, rounds=4)
+                if derive:
+                    h = h.using(rounds=5)
+                label = f"bcrypt_sha256(version={ver}{', derived' if derive else ''})"
+                g.case(label)
+                hs = h.hash("pw")
+                g.check(h.from_string(hs).version == ver, f"version:format:{ver}", "fresh hash does not carry the configured wrapper version", {"hasher": label, "hash": hs})
+                g.check(h.needs_update(hs) is False, f"version:fresh-flagged:{ver}", "the hasher's update check flags its own fresh hash", {"hasher": label, "hash": hs})
+                other = PH.bcrypt_sha256.using(version=3 - ver, rounds=5 if derive else 4).hash("pw")
+                g.check(h.needs_update(other) is (3 - ver < ver), f"version:other:{ver}", "a hash of the other wrapper version is flagged iff it is older than the configured one", {"hasher": label, "hash": other})
+                g.check(h.verify("pw", hs) and h.verify("pw", other), f"version:verify:{ver}", "hash of either version does not verify", {"hasher": label})
+        lm = PH.lmhash.using(truncate_error=True)
+        for pw, enc, over in (("\u00e9" * 8, "utf-8", True), ("\u00e9" * 7, "utf-8", False), ("\u00e9" * 14, "cp437", False), ("\u00e9" * 14, "latin-1", False), ("\u20ac" * 5, "utf-8", True), ("a" * 15, None, True)):
+            g.case(("lmhash", repr(pw), enc))
+            try:
+                lm.hash(pw, **({"encoding": enc} if enc else {}))
+                raised = False
+            except Exception as err:  # noqa: BLE001
+                raised = type(err).__name__ == "PasswordTruncateError"
+            g.check(raised == over, f"lmhash:truncate-error:{enc}", "lmhash(truncate_error=True) does not count the bytes of the encoding the caller named", {"password": repr(pw), "encoding": enc, "expected_refusal": over})
+    except Exception as err:  # noqa: BLE001
+        skipped.append(f"configured-format-version: {type(err).__name__}: {err}"[:200])
+    groups.append(g)
     return groups, skipped, {"hashers": len(subjects)}
 
 
